@@ -4,7 +4,7 @@ import json, os, sys
 ROOT = os.path.dirname(os.path.dirname(os.path.abspath(__file__)))
 sys.path.insert(0, os.path.join(ROOT, "lib"))
 
-TECH = "explicit TLA+ spec (TLC model checking) + trace validation of the real code against it"
+TECH = "explicit TLA+ spec model-checked with TLC; TLC-emitted behaviours (exhaustive small instance + simulation) and seeded random sequences replayed into the real code; the recorded traces validated step by step by TLC against the spec"
 CHECKS = {
  "C01": dict(ref="DESIGN.md 5/C01", engine="GribiRIB",
    text="TLC model-checks GribiRIB (InstalledIsFold, FailedLeavesNoTrace) on bounded instances; TLC-emitted input sequences (all short ones, biased simulation walks) and seeded random histories over 3-4 instances are replayed into the real rib package; every call's results, the full projected RIB, and the fold of the acknowledged operations are validated by TLC against GribiRIBTrace, deviations attributed per component.",
@@ -62,7 +62,7 @@ CHECKS.update({
    note="data races are observed by Go's race detector on the schedules the runtime produced in this run; the specification contributes the atomicity/consistency oracle for the recorded interleavings (DESIGN 7)",
    tech="explicit TLA+ spec at critical-section grain (TLC) + trace validation of concurrent runs; race detector as observer"),
  "C13": dict(ref="DESIGN.md 5/C13", engine="GribiClient",
-   text="GribiClient models Q/StartSending/the receiver's handling of every response kind/AwaitConverged; TLC checks Conservation, NeverTwice and ConvergedMeansAnswered over all batches against all server behaviours (reordering across ids, batching, RIB before FIB, election/parameter responses, unknown ids, repeated terminal results, multi-field responses) and emits sequences; on the real client (scripted stub stream) pending operations, results with their operation type/key, error counts, what reached the stream and the AwaitConverged verdict are compared after every step; Status() snapshots taken concurrently with the receiver must account for every operation. One open known finding.",
+   text="GribiClient models Q/StartSending/the receiver's handling of every response kind/AwaitConverged; TLC checks Conservation, NeverTwice and ConvergedMeansAnswered over all batches against all server behaviours (reordering across ids, batching, RIB before FIB, election/parameter responses, unknown ids, repeated terminal results, multi-field responses) and emits sequences; on the real client (scripted stub stream) pending operations, results with their operation type/key, error counts, what reached the stream and the AwaitConverged verdict are compared after every step; Status() snapshots taken concurrently with the receiver - one of them held at a gate between its two reads while a response is handled - must account for every operation. One open known finding.",
    note="the sender goroutine is eager (harness waits for its Send); ids unique in TLC-emitted sequences"),
  "C14": dict(ref="DESIGN.md 5/C14", engine="GribiClient",
    text="Same specification with the fault actions: a failed Send after n messages (which breaks the stream for the receiver too), a receive error, a clean end of stream, and a burst of Q calls while Send is stuck and then fails; after each the specification requires the recorded errors, the AwaitConverged verdict 'err', every Q call to return, Close/Reset to return with no client goroutine left (goroutine census) and a fresh client after Reset+Connect. A call that does not return within the watchdog is reported with the blocked frames.",
